@@ -89,6 +89,19 @@ func Goid() int64 {
 	return id
 }
 
+var runStart []func()
+
+// OnRunStart registers f to be called at the start of every simulated run
+// (used by generated code to empty the library's process-wide caches).
+func OnRunStart(f func()) { runStart = append(runStart, f) }
+
+// RunStart calls the registered functions; no library goroutine is running.
+func RunStart() {
+	for _, f := range runStart {
+		f()
+	}
+}
+
 // Start activates the simulation; the caller becomes the root (driver)
 // goroutine. It must be called from inside the synctest bubble.
 func Start(h Hooks) {
